@@ -100,7 +100,7 @@ def job_shell():
         for name, goal in shell_ensures(n1, nm1, b1, nm2, b2, rev, P, S).items():
             ctx.prove(name, goal)
 
-    return verify(T_SHELL, setup, post)
+    return verify(T_SHELL, setup, post, quant_feas=True)
 
 
 # ------------------------------------------------------------------------------------------------
@@ -289,7 +289,7 @@ def job_conventions():
         ctx.prove("post.length-is-total-number-of-functions", z3.And(pa.n0() == th.off(th.ns, 0), sa.n0() == pa.n0()))
         ctx.prove("post.direct-sum-of-shell-conversions-in-shell-order", th.blocks_done(P, S, pa.n0(), th.ns, z3.IntVal(0)))
 
-    return verify(T_CONV, setup, post, config=cfg)
+    return verify(T_CONV, setup, post, config=cfg, quant_feas=True)
 
 
 # ------------------------------------------------------------------------------------------------
